@@ -4,7 +4,7 @@ run every registered check against it, and write /verif/seeded/<id>/checks.json:
 the violations reported.  The scratch copy and its caches are removed afterwards."""
 import json, os, shutil, subprocess, sys, tempfile
 
-PROPS = [f"C{i:02d}" for i in range(1, 21)]
+PROPS = (os.environ.get("VERIF_PROPS") or " ".join(f"C{i:02d}" for i in range(1, 21))).split()
 
 
 def one(seed):
@@ -43,6 +43,11 @@ def one(seed):
 if __name__ == "__main__":
     for s in sys.argv[1:]:
         res = one(s)
+        if os.environ.get("VERIF_PROPS") and os.path.exists(f"/verif/seeded/{s}/checks.json") and "error" not in res:
+            # a run over a subset of the properties updates those entries only
+            full = json.load(open(f"/verif/seeded/{s}/checks.json"))
+            full.update(res)
+            res = full
         json.dump(res, open(f"/verif/seeded/{s}/checks.json", "w"), indent=1, sort_keys=True)
         fired = {p: v["violations"] for p, v in res.items() if isinstance(v, dict) and v.get("rc") == 1}
         other = {p: v["rc"] for p, v in res.items() if isinstance(v, dict) and v.get("rc") not in (0, 1)}
